@@ -16,33 +16,21 @@ def generate(repo):
 
     def shapes():
         s = W('run_normal_WL')
+        # the loop body, __run_flatcheck and indexInsideRelevantRegion are tied semantically (g_minipy -> Props/Tie/minipy_wl_tie.v);
+        # what stays here: the initialisation before the loop, the loop test, and the output / log statements the embedding drops
         frags = ['g = [0] * self.nbins_actual', 'H = [0] * self.nbins_actual', 'f = np.exp(1)', 'nstep = 0', 'niter = 0',
                  'oseqDmax, oseqPermut = self.seq.deltaMax(returnSeqDeltaMax=True)', 'oseq = Sequence(seq=oseqPermut)',
                  'kold = oseq.kappa()', 'idx_old = np.argmin(abs(bincts - kold))', 'while f > self.convergence:',
-                 'r = rand.random()', 'if r < p_full_shuffle: nseq = oseq.full_shuffle(self.frozen)',
-                 'elif r < p_swap_charges + p_full_shuffle: nseq = oseq.swapRandChargeRes(self.frozen)',
-                 'elif r < p_swap_blocks + p_swap_charges + p_full_shuffle: nseq = oseq.permute_block_swap(self.frozen)',
-                 'else: nseq = oseq.permute_cluster_charges(self.frozen)', 'knew = nseq.kappa()',
-                 'idx_new = np.argmin(abs(bincts - knew))', 'skip = False',
-                 'if self.indexInsideRelevantRegion(idx_new): acceptProb = min([1, np.exp(g[idx_old] - g[idx_new])])',
-                 'else: reject = reject + 1 acceptProb = 0 skip = True', 'if rand.random() < acceptProb:',
-                 'oseq = Sequence(nseq.seq, nseq.dmax, nseq.chargePattern)', 'kold = oseq.kappa() idx_old = np.argmin(abs(bincts - kold))',
-                 'if not skip: g[idx_old] = g[idx_old] + np.log(f) H[idx_old] = H[idx_old] + 1',
-                 'nstep = nstep + 1 if nstep % self.nflatchk == 0:', 'Hlocal = H[self.relevant_min:self.relevant_max + 1]',
-                 'H, f, niter, nstep = self.__run_flatcheck(H, Hlocal, niter, f, hlog, glog, g)',
                  "dos.write('%0.3f\\t%5.6f\\n' % (bincts[i], g[i]))", 'return np.vstack((bincts, g))',
-                 "self.writeLog(seqlog, '%0.3f\\t%s\\n' % (oseq.kappa(), oseq))"]
+                 "self.writeLog(seqlog, '%0.3f\\t%s\\n' % (oseq.kappa(), oseq))",
+                 "self.writeLog(hlog, str(flatcount) + '\\t' + self.fprintHVector(Hlocal) + '\\n')"]
         for fr in frags:
             need(' '.join(fr.split()) in s, 'run_normal_WL: missing `%s`' % fr[:50])
         s = W('__run_flatcheck')
-        for fr in ['flatness_number = len(np.where(Hlocal / np.mean(Hlocal) >= self.flatcrit)[0])',
-                   'if flatness_number == self.nbins_target:', 'f = f ** 0.5', 'H = [0] * self.nbins_actual', 'niter = niter + 1',
-                   "self.writeLog(glog, str(niter) + '\\t' + self.fprintGVector(g) + '\\n')", 'return (H, f, niter, 0)']:
+        for fr in ["self.writeLog(glog, str(niter) + '\\t' + self.fprintGVector(g) + '\\n')"]:
             need(' '.join(fr.split()) in s, '__run_flatcheck: missing `%s`' % fr[:50])
         need('return 1.0 / float(self.nbins_actual)' in W('getBinSize'), 'getBinSize')
         need('binsz = self.getBinSize() return binsz / 2 + binsz * np.arange(0, self.nbins_actual)' in W('getBinCenters'), 'getBinCenters')
-        need('if idx <= self.relevant_max and idx >= self.relevant_min: return True else: return False' in W('indexInsideRelevantRegion'),
-             'indexInsideRelevantRegion')
         s = W('__init__')
         for fr in ['binWidth = diff / float(self.nbins_target)', 'self.nbins_actual = int(round(1 / binWidth))',
                    'self.relevant_min = np.argmin(abs(bincts - (self.binmin + binWidth / 2)))',
